@@ -17,6 +17,7 @@
   semantics (`Th.step`), ownership oracle after every returned allocation and at quiescent ends.
 -/
 import LLFreeV.Props.C12
+import LLFreeV.Proofs.UpperInit
 namespace LLFree.C01
 open LLFree
 
@@ -77,5 +78,33 @@ theorem fresh_disjoint_from_allocated (g : Geom) (m : Mem) (f o f2 o2 : Nat)
     rw [Nat.add_zero] at a
     rw [show f2 + (f - f2) = f by omega] at b
     rw [a] at b; cases b
+
+
+/-- **Sequential freshness at the public interface**: a block returned by `LLFree::get` in any
+    reachable state is aligned, consists of frames that were all free (hence is disjoint from
+    every block handed out and not yet freed — `fresh_disjoint_from_allocated`), is the target if
+    one was given, and exactly its frames become allocated. -/
+theorem seq_get_fresh (c : Cfg) (ok : CfgOk c) (H : Nat → Prop) (m : Mem) (inv : UpperInv0 c H m) (frame : Option Nat)
+    (r : Request) (hcls : r.cls < 8) (hloc : r.locOk c) (hv : C08.ArgsValid c (frame.getD 0) r) :
+    Runs m (get c frame r) (fun res m' => UpperInv0 c H m' ∧ ∀ f k, res = .ok (f, k) →
+      f % 2 ^ r.order = 0 ∧ (∀ i, i < 2 ^ r.order → m.allocated c.geom (f + i) = false) ∧
+      (∀ x, frame = some x → f = x) ∧ ∀ x, m'.allocated c.geom x = (m.allocated c.geom x || inBlock f r.order x)) := by
+  apply Runs.mono (upper_get_spec ok inv frame r hcls hloc hv)
+  rintro res m' ⟨inv', out⟩
+  refine ⟨inv', ?_⟩
+  intro f k hres
+  subst hres
+  obtain ⟨_, hal, hallowed, hfx, heff⟩ := out
+  exact ⟨hal, hallowed, hfx, heff.1⟩
+
+/-- a free block lies inside the managed range: frames beyond it are marked allocated -/
+theorem fresh_in_range (c : Cfg) (m : Mem) (inv : LowerInv c m) (f : Nat) (hfree : m.allocated c.geom f = false) :
+    f < c.frames := by
+  apply Classical.byContradiction
+  intro hn
+  have := inv.outside f (by omega)
+  unfold Mem.allocated at hfree
+  rw [this] at hfree
+  simp at hfree
 
 end LLFree.C01
